@@ -8,6 +8,7 @@ import (
 	"math/rand"
 	"os"
 	"path/filepath"
+	"regexp"
 	"strings"
 	"time"
 
@@ -42,6 +43,7 @@ func toFmtTree(n *parser.ASTNode) *fmtTree {
 }
 
 type fmtRec struct {
+	pieces  []fmtPiece
 	Src     string   `json:"src"`
 	S1      string   `json:"s1"`
 	Reparse bool     `json:"reparse"`
@@ -206,6 +208,17 @@ func C08(r *ev.Run) {
 			add("s := '" + strings.Replace(strings.Replace(body, "\\\"", "\"", -1), "'", "", -1) + "'")
 		}
 	}
+	// generated programs: every statement kind nested in each other with hostile layout (comments, blank lines and
+	// line breaks between any two tokens, semicolons, several statements on a line) and unusual constructs
+	for k := 0; k < pick(tier, 4000, 60000); k++ {
+		ps := genFmtProgram(rng)
+		if rec, ok := formatCase(renderFmt(ps, nil)); ok {
+			rec.pieces = ps
+			recs = append(recs, rec)
+			trace = append(trace, rec)
+			r.Case(rec.Src, len(rec.Src) > 8)
+		}
+	}
 	// the in-place format tool on a directory tree
 	dir, err := os.MkdirTemp("", "verif-c08-")
 	if err == nil {
@@ -267,11 +280,79 @@ func C08(r *ev.Run) {
 		badRecs[idx] = true
 		rec := recs[idx-1]
 		sig := fmtSignature(rec, clause)
+		needsNote := ""
+		if rec.pieces != nil {
+			needs, small := minimizeFmt(rec.pieces, clause)
+			if len(needs) > 0 {
+				// the signature names the clause and the first needed feature in a fixed order of suspicion (the full
+				// set is in the message): root causes, not combinations
+				primary := needs[0]
+				for _, f := range fmtFeatures {
+					found := false
+					for _, n := range needs {
+						found = found || n == f
+					}
+					if found {
+						primary = f
+						break
+					}
+				}
+				sig = map[int]string{1: "C08 formatted text does not parse", 2: "C08 formatted text parses differently", 3: "C08 formatting is not idempotent", 4: "C08 fault"}[clause] + " with: " + primary
+				needsNote = " [needs: " + strings.Join(needs, " + ") + "]"
+			}
+			if small != nil {
+				rec = small
+			}
+		}
 		b, _ := json.Marshal(map[string]string{"src": rec.Src, "formatted": rec.S1, "reparse_error": rec.ReErr, "fault": rec.Fault})
-		r.Violation(sig, fmt.Sprintf("clause %d of Format_Trace: %s", clause, headStr(string(b), 600)), rec)
+		r.Violation(sig, fmt.Sprintf("clause %d of Format_Trace%s: %s", clause, needsNote, headStr(string(b), 600)), rec)
 	}
 	r.AddTraces(int64(len(recs) - len(badRecs)))
 	r.Set("sources_formatted", len(recs))
+}
+
+// judgeFmt repeats the clauses of Format_Trace locally (only used to reduce a failing generated program).
+func judgeFmt(rec *fmtRec) int {
+	switch {
+	case rec.Fault != "":
+		return 4
+	case !rec.Reparse:
+		return 1
+	case !sameFmtTree(rec.T0, rec.T1):
+		return 2
+	case !rec.Idem:
+		return 3
+	}
+	return 0
+}
+
+func sameFmtTree(a, b *fmtTree) bool {
+	if a.N != b.N || a.V != b.V || a.Esc != b.Esc || len(a.C) != len(b.C) {
+		return false
+	}
+	for i := range a.C {
+		if !sameFmtTree(a.C[i], b.C[i]) {
+			return false
+		}
+	}
+	return true
+}
+
+// minimizeFmt switches the features of a failing generated program off one by one as long as the same clause
+// still fails: what is left is what the failure needs.
+func minimizeFmt(ps []fmtPiece, clause int) ([]string, *fmtRec) {
+	off := map[string]bool{}
+	var small *fmtRec
+	for _, f := range fmtFeatsOf(ps, nil) {
+		off[f] = true
+		rec, ok := formatCase(renderFmt(ps, off))
+		if ok && judgeFmt(rec) == clause {
+			small = rec
+			continue
+		}
+		delete(off, f)
+	}
+	return fmtFeatsOf(ps, off), small
 }
 
 // fmtSignature classifies a formatter failure by what differs.
@@ -295,6 +376,9 @@ func firstTreeDiff(a, b *fmtTree) string {
 		if a.N == "times" && len(a.C) == 2 && a.C[1].N == "div" {
 			return "a * (b / c) printed as a * b / c"
 		}
+		if a.N == "statements" || a.N == "map" || a.N == "list" {
+			return "a bracketed list after an expression is split off or merged (number of items of " + a.N + " changed)"
+		}
 		return "operator nesting changed"
 	}
 	if a.N == "string" && a.Esc != b.Esc {
@@ -312,3 +396,30 @@ func firstTreeDiff(a, b *fmtTree) string {
 }
 
 var _ = tlc.Options{}
+
+// MinimizeSource greedily removes whitespace separated words of a source text as long as the same clause of the
+// formatter property fails (diagnosis tool, see cmd/ppmin).
+func MinimizeSource(src string) (string, int) {
+	rec, ok := formatCase(src)
+	if !ok {
+		return src, -1
+	}
+	clause := judgeFmt(rec)
+	if clause == 0 {
+		return src, 0
+	}
+	re := regexp.MustCompile(`[^\s]+|\s+`)
+	words := re.FindAllString(src, -1)
+	for changed := true; changed; {
+		changed = false
+		for i := 0; i < len(words); i++ {
+			cand := append(append([]string{}, words[:i]...), words[i+1:]...)
+			if r2, ok := formatCase(strings.Join(cand, "")); ok && judgeFmt(r2) == clause {
+				words = cand
+				changed = true
+				i--
+			}
+		}
+	}
+	return strings.Join(words, ""), clause
+}
